@@ -18,6 +18,10 @@ GraphOf(dims, shadow) ==      \* shadow: set of input indexes that are also init
     inputs |-> [i \in 1..n |-> [name |-> InName(i), dt |-> "f32", dims |-> dims[i]]],
     outputs |-> [i \in 1..n |-> "s" \o ToString(i)],
     inits |-> [nm \in {InName(i) : i \in shadow} |-> Iota("f32", <<5>>, 0)]]      \* an initializer of another shape than any supplied tensor
+\* the same graph without the node (and the output) of input k: an initializer-backed input that no node reads
+Unconsumed(g, k) ==
+   LET keep == SelectSeq([i \in 1..Len(g.nodes) |-> i], LAMBDA i : i # k) IN
+   [g EXCEPT !.nodes = [j \in 1..Len(keep) |-> g.nodes[keep[j]]], !.outputs = [j \in 1..Len(keep) |-> g.outputs[keep[j]]]]
 InitsSeq(g) == LET names == SeqOfSet(DOMAIN g.inits) IN [k \in 1..Len(names) |-> [name |-> names[k], t |-> g.inits[names[k]]]]
 ModelJ(g) == [nodes |-> g.nodes, inputs |-> g.inputs, outputs |-> g.outputs, inits |-> InitsSeq(g), opset |-> 13]
 
@@ -68,6 +72,8 @@ Many(dims) ==
    /\ \A k \in 1..n :
          LET gs == GraphOf(dims, {k}) rest == names \ {InName(k)} IN
          /\ P(CaseOf(gs, Supply(rest, good), <<"many_inputs", "one_shadowed">>))
+         /\ P(CaseOf(Unconsumed(gs, k), Supply(rest, good), <<"many_inputs", "one_shadowed", "shadowed_input_read_by_no_node">>))
+         /\ P(CaseOf(Unconsumed(gs, k), Supply(names, good), <<"many_inputs", "one_shadowed", "shadowed_input_read_by_no_node", "supplied">>))
          /\ \A i \in (1..n) \ {k} :
                /\ P(CaseOf(gs, Supply(rest \ {InName(i)}, good), <<"many_inputs", "one_shadowed", "one_missing">>))
                /\ \A sh \in {[ConformShape(dims[i]) EXCEPT ![Len(dims[i])] = 7], ConformShape(dims[i]) \o <<1>>} :
